@@ -3,9 +3,13 @@ package checks
 import (
 	"errors"
 	"fmt"
+	"io"
 	"net/http"
 	"net/http/httptest"
 	"strings"
+	"sync"
+
+	"github.com/gookit/color"
 
 	"github.com/gookit/rux"
 
@@ -25,6 +29,11 @@ type chainShape struct {
 	// no handler panics); neither may change what the chain does. 'W' = an extra first global middleware replaces c.Resp
 	// by a pass-through wrapper that, like net/http, sends 200 itself when the first write comes without a WriteHeader.
 	// 'H' = before the measured request the router served a request whose handler hijacked the connection, and a 404.
+	// 'X' = before the measured request the router served a request in which a handler aborted and a suspended middleware
+	// then panicked (no OnPanic hook: the panic reached the caller). 'D' = rux's debug mode is on (process-global: such
+	// chains run alone, every other chain holds a read lock meanwhile).
+	// 'C' = the router caches dynamic matches, the route is dynamic (/x/{id}) and the measured request is the SECOND
+	// identical one (answered from the route cache).
 	Hooks string `json:"hooks,omitempty"`
 }
 
@@ -106,6 +115,9 @@ func mkHandler(id int, b refmodel.Behaviour, log *[]refmodel.Event) rux.HandlerF
 	}
 }
 
+// debug mode is process-global: chains that switch it on run alone
+var chainDebugMu sync.RWMutex
+
 // statusW is a transparent ResponseWriter wrapper of the usual kind: it passes everything on and, when the first write
 // arrives without a WriteHeader, announces 200 itself first
 type statusW struct {
@@ -127,6 +139,19 @@ func (w *statusW) Write(b []byte) (int, error) {
 
 // runChain builds the router for the shape and serves one request.
 func runChain(sh chainShape, table map[byte]refmodel.Behaviour) (obs chainObs, bs []refmodel.Behaviour, regPanic any) {
+	if strings.Contains(sh.Hooks, "D") {
+		chainDebugMu.Lock()
+		color.SetOutput(io.Discard)
+		rux.Debug(true)
+		defer func() {
+			rux.Debug(false)
+			color.ResetOutput()
+			chainDebugMu.Unlock()
+		}()
+	} else {
+		chainDebugMu.RLock()
+		defer chainDebugMu.RUnlock()
+	}
 	n := sh.N
 	bs = make([]refmodel.Behaviour, n)
 	for i := 0; i < n; i++ {
@@ -139,6 +164,11 @@ func runChain(sh chainShape, table map[byte]refmodel.Behaviour) (obs chainObs, b
 	}
 	g, p, rt := sh.Split[0], sh.Split[1], sh.Split[2]
 	r := rux.New()
+	routePath, reqPath := "/x", "/x"
+	if strings.Contains(sh.Hooks, "C") {
+		r = rux.New(rux.CachingWithNum(4))
+		routePath, reqPath = "/x/{id}", "/x/7"
+	}
 	if strings.Contains(sh.Hooks, "E") {
 		r.OnError = func(c *rux.Context) { _ = c.FirstError() }
 	}
@@ -149,6 +179,12 @@ func runChain(sh chainShape, table map[byte]refmodel.Behaviour) (obs chainObs, b
 		r.Use(func(c *rux.Context) {
 			c.Resp = &statusW{ResponseWriter: c.Resp}
 			c.Next()
+		})
+	}
+	if strings.Contains(sh.Hooks, "X") {
+		r.GET("/abort-then-panic", func(c *rux.Context) { c.AbortWithStatus(403) }, func(c *rux.Context) {
+			c.Next()
+			panic("after the chain was aborted")
 		})
 	}
 	if strings.Contains(sh.Hooks, "H") {
@@ -182,12 +218,12 @@ func runChain(sh chainShape, table map[byte]refmodel.Behaviour) (obs chainObs, b
 			rm := hs[g+p : g+p+rt]
 			switch sh.Via {
 			case "use":
-				r.GET("/x", hs[n-1]).Use(rm...)
+				r.GET(routePath, hs[n-1]).Use(rm...)
 			case "mixed":
 				h := len(rm) / 2
-				r.GET("/x", hs[n-1], rm[:h]...).Use(rm[h:]...)
+				r.GET(routePath, hs[n-1], rm[:h]...).Use(rm[h:]...)
 			default:
-				r.GET("/x", hs[n-1], rm...)
+				r.GET(routePath, hs[n-1], rm...)
 			}
 		}
 		if p > 0 {
@@ -208,8 +244,16 @@ func runChain(sh chainShape, table map[byte]refmodel.Behaviour) (obs chainObs, b
 		_ = try(func() { r.ServeHTTP(httptest.NewRecorder(), httptest.NewRequest("GET", "/no/such/route/either", nil)) })
 		log = log[:0]
 	}
+	if strings.Contains(sh.Hooks, "C") {
+		_ = try(func() { r.ServeHTTP(httptest.NewRecorder(), httptest.NewRequest("GET", reqPath, nil)) })
+		log = log[:0]
+	}
+	if strings.Contains(sh.Hooks, "X") {
+		_ = try(func() { r.ServeHTTP(httptest.NewRecorder(), httptest.NewRequest("GET", "/abort-then-panic", nil)) })
+		log = log[:0]
+	}
 	w := httptest.NewRecorder()
-	obs.pv = try(func() { r.ServeHTTP(w, httptest.NewRequest("GET", "/x", nil)) })
+	obs.pv = try(func() { r.ServeHTTP(w, httptest.NewRequest("GET", reqPath, nil)) })
 	obs.events = log
 	obs.status = w.Code
 	obs.body = w.Body.String()
